@@ -82,12 +82,17 @@ pub struct ReadCfg {
     /// read from this file instead of the in-memory image (C15)
     #[serde(default)]
     pub spill_path: Option<String>,
+    /// authenticated repair: select the mode through the explicit setter
+    /// (`failsafe_return_only_authenticated_data`) instead of leaving the configuration untouched
+    /// (untouched = what `mlar repair` does, the default)
+    #[serde(default)]
+    pub explicit_auth_mode: bool,
 }
 
 impl ReadCfg {
     pub fn for_cfg(cfg: &ArcCfg) -> ReadCfg {
         let keys = if cfg.enc() { vec![hex::encode(crate::model::key_bytes(cfg.key_seed, cfg.reader))] } else { vec![] };
-        ReadCfg { keys, sched: Sched::Full, budget: u64::MAX / 2, error_at_read: None, spill_path: None }
+        ReadCfg { keys, sched: Sched::Full, budget: u64::MAX / 2, error_at_read: None, spill_path: None, explicit_auth_mode: false }
     }
     pub fn key_bytes(&self) -> Vec<[u8; 32]> {
         self.keys
